@@ -77,7 +77,10 @@ def worker(job):
         for t in range(3):
             final2 = copy.deepcopy(final)
             mp2 = final2["params"]["model_parameters"]
-            mp2["national_summary_correlation"] = not mp2.get("national_summary_correlation", True)
+            # independent contests with the hard threshold: the mode in which the bounds come from single bootstrap draws and ties abound
+            mp2["national_summary_correlation"] = False
+            mp2.pop("agg_model_hard_threshold", None)
+            mp2.pop("T", None)
             mp2["seed"] = 100 + t
             alt.append(({"cases": [final2], "nat_sum": True, "nat_unit_weights": True}, {"cases": [final2], "nat_sum": True, "nat_sum_history": True, "nat_unit_weights": True}))
     res = {}
@@ -105,7 +108,7 @@ def worker(job):
     for t, (sa, sb) in enumerate(alt or []):
         ra = sub_run(sa, "0", f"{seed}_altref{t}")
         rb = sub_run(sb, "1", f"{seed}_althist{t}")
-        pair = {"name": f"summary-after-summaries (other correlation mode, model seed {100 + t})", "hashseed": "1", "ok": bool(ra.get("ok") and rb.get("ok")), "exc": rb.get("exc"), "diff": None}
+        pair = {"name": f"summary-after-summaries (independent contests, model seed {100 + t})", "hashseed": "1", "ok": bool(ra.get("ok") and rb.get("ok")), "exc": rb.get("exc"), "diff": None}
         if ra.get("ok") and rb.get("ok"):
             if ra["tables"] != rb["tables"]:
                 pair["diff"] = "tables differ"
